@@ -18,6 +18,9 @@ TREES_Q = [
     ("padlr_combine", ("padlr", ("combine", "A", "B"))), ("trim_join", ("trim", ("join", "A", "B"))), ("attr_overlay", ("attr", ("overlay", "A", "B"))),
     ("overlay_padlr", ("overlay", ("padlr", "A"), "B")), ("join_trim", ("join", ("trim", "A"), "B")), ("combine_padlr", ("combine", ("padlr", "A"), ("padlr", "B"))),
     ("attr_attr", ("attr", ("attr", "A"))), ("padtb_overlay", ("padtb", ("overlay", "A", "B"))), ("trim_end_combine", ("trim_end", ("combine", "A", "B"))),
+    # a tall canvas beside a stack: later shards are entered by the tall one; then a side trim / an overlay across the shard boundary
+    ("padlr_join_stack", ("padlr", ("join", "A", ("combine", "B", "C")))), ("padlr_join_stack_left", ("padlr", ("join", ("combine", "B", "C"), "A"))),
+    ("overlay_join_stack", ("overlay", "D", ("join", "A", ("combine", "B", "C")))),
 ]
 TREES_T = TREES_Q + [
     ("deep1", ("padlr", ("overlay", ("trim", "A"), ("join", "B", "C")))), ("deep2", ("combine", ("join", "A", "B"), ("padlr", ("attr", "C")))),
@@ -28,7 +31,10 @@ TREES_T = TREES_Q + [
 def instances(tier):
     out = []
     for name, tree in (TREES_Q if tier == "quick" else TREES_T):
-        out.append(Instance("algebra.%s" % name, "h_algebra", {"tree": tree}, timeout=900 if tier == "quick" else 3600))
+        if name in ("padlr_join_stack_left", "overlay_join_stack") and tier == "quick":
+            continue  # (ten minutes each: thorough tier)
+        kw = {"tree": tree, "maxrows": 2} if "_stack" in name else {"tree": tree}
+        out.append(Instance("algebra.%s" % name, "h_algebra", kw, timeout=900 if tier == "quick" else 1500))
     for name, tree in TREES_Q[:8]:
         out.append(Instance("final.%s" % name, "h_final", {"tree": tree}, timeout=300))
     for name, new, old in DELTA_PAIRS:
@@ -99,7 +105,7 @@ def _build(I, tree, ctr, leaves, Leaf):
         if tree in leaves and isinstance(leaves[tree], tuple):
             return leaves[tree]          # shared leaf (content_delta compares canvases by identity)
         cols = I.int("cols_" + tree, 1)
-        rows = int(I.int("rows_" + tree, 1, 3))
+        rows = int(I.int("rows_" + tree, 1, leaves.get("__maxrows__", 3)))
         lf = Leaf(tree, cols, rows)
         cur = None
         if tree == "A" and bool(I.bool("A_has_cursor")):
@@ -184,14 +190,14 @@ def _locate(row, x):
     return "beyond"
 
 
-def h_algebra(I, tree):
+def h_algebra(I, tree, maxrows=3):
     from urwid import canvas as cv
     from models import grid
     from symx import uw
 
     Leaf = _mk_leafclass()
     uw._patch(cv, "blank_canvas", Leaf(None, 0, 0))  # abstract blank: content() yields descriptors instead of b''.rjust(cols)
-    leaves = {}
+    leaves = {"__maxrows__": maxrows}
     canv, ref = _build(I, tree, [0], leaves, Leaf)
     I.check("cols", canv.cols() == ref.cols)
     I.check("rows", canv.rows() == ref.rows)
